@@ -180,7 +180,7 @@ pub fn run(ctx: &Ctx) -> PropResult {
         };
         wls.push(Workload::cases(name, (hi - lo + 1) as u64, move |rec, idx, _| judge_row_dates(rec, lo, hi, lo + idx as i64)));
     }
-    wls.push(Workload::cases("datetime_pairs_window", ctx.n(120_000, 3_000_000), move |rec, idx, rng| {
+    wls.push(Workload::cases("datetime_pairs_window", ctx.count(120_000, 3_000_000), move |rec, idx, rng| {
         let (lo, hi) = [w1, w2, w3][(idx % 3) as usize];
         let b_day = rng.range_i64(lo, hi);
         let a_day = match rng.below(4) {
@@ -206,7 +206,7 @@ pub fn run(ctx: &Ctx) -> PropResult {
         };
         judge_dt_pair(rec, (a_day, a_tod), (b_day, b_tod), tag);
     }));
-    wls.push(Workload::cases("far_apart_pairs", ctx.n(60_000, 1_000_000), |rec, idx, rng| {
+    wls.push(Workload::cases("far_apart_pairs", ctx.count(60_000, 1_000_000), |rec, idx, rng| {
         let b_day = rng.range_i64(cal::MIN_DAY + 2, cal::MAX_DAY - 2);
         let a_day = if idx % 2 == 0 { rng.range_i64(cal::MIN_DAY + 2, cal::MAX_DAY - 2) } else { (b_day + rng.range_i64(-200_000, 200_000)).clamp(cal::MIN_DAY + 2, cal::MAX_DAY - 2) };
         judge_dt_pair(rec, (a_day, rng.range_i128(0, D - 1)), (b_day, rng.range_i128(0, D - 1)), "dt/far-apart");
